@@ -41,6 +41,8 @@ type testFile struct {
 	ExpectRejected bool `json:"expect_rejected,omitempty"`
 	// SkipC: do not run the C side (e.g. the C would not terminate).
 	SkipC bool `json:"skip_c,omitempty"`
+	// ExpectUnsupported: the interpreter must refuse the case.
+	ExpectUnsupported bool `json:"expect_unsupported,omitempty"`
 }
 
 var (
@@ -60,6 +62,10 @@ func main() {
 	flag.Parse()
 	if *flagEmit {
 		emit()
+		return
+	}
+	if *flagGen {
+		genMode()
 		return
 	}
 	files, err := filepath.Glob(filepath.Join(*flagDir, "*.json"))
@@ -180,8 +186,13 @@ func main() {
 		}
 		out := outs[i]
 		if out != nil {
-			if out.Unsupported != "" {
+			switch {
+			case out.Unsupported != "" && tf.ExpectUnsupported:
+				notes = append(notes, "unsupported as expected: "+out.Unsupported)
+			case out.Unsupported != "":
 				problems = append(problems, "UNSUPPORTED: "+out.Unsupported)
+			case tf.ExpectUnsupported:
+				problems = append(problems, "expected the interpreter to refuse the case")
 			}
 			got := map[string]bool{}
 			for _, e := range out.Events {
@@ -203,7 +214,15 @@ func main() {
 				}
 				same := reflect.DeepEqual(normTrace(out.Trace), normTrace(r.tr[i]))
 				hasEv := len(r.ev[i]) > 0
-				clean := len(tf.ExpectEvents) == 0
+				clean := len(tf.ExpectEvents) == 0 && len(tf.ExpectCEvents) == 0 && !tf.ExpectDiff && !tf.ExpectUnsupported
+				if !clean {
+					for _, e := range r.ev[i] {
+						notes = append(notes, fmt.Sprintf("%s C event call %d: %s:%s | %s", variant, e.Call, e.Prop, e.Kind, oneLine(e.Node)))
+					}
+					if !same {
+						notes = append(notes, variant+": traces differ")
+					}
+				}
 				switch {
 				case clean && !same:
 					problems = append(problems, variant+": C trace differs from the interpreter's")
